@@ -43,30 +43,32 @@ type hClient struct {
 	key    jwk.Key
 }
 
-func (c *hClient) ACRValues() string                  { return c.cfg.OpenID.ACRValues }
-func (c *hClient) Audiences() map[string]bool         { return c.cfg.OpenID.TrustedAudiences() }
+func (c *hClient) ACRValues() string                   { return c.cfg.OpenID.ACRValues }
+func (c *hClient) Audiences() map[string]bool          { return c.cfg.OpenID.TrustedAudiences() }
 func (c *hClient) AuthMethod() openidconfig.AuthMethod { return c.method }
-func (c *hClient) ClientID() string                   { return c.cfg.OpenID.ClientID }
-func (c *hClient) ClientJWK() jwk.Key                 { return c.key }
-func (c *hClient) ClientSecret() string               { return c.cfg.OpenID.ClientSecret }
-func (c *hClient) PostLogoutRedirectURI() string      { return c.cfg.OpenID.PostLogoutRedirectURI }
-func (c *hClient) ResourceIndicator() string          { return c.cfg.OpenID.ResourceIndicator }
-func (c *hClient) Scopes() scopes.Scopes              { return scopes.DefaultScopes().WithAdditional(c.cfg.OpenID.Scopes...) }
-func (c *hClient) UILocales() string                  { return c.cfg.OpenID.UILocales }
-func (c *hClient) WellKnownURL() string               { return c.cfg.OpenID.WellKnownURL }
+func (c *hClient) ClientID() string                    { return c.cfg.OpenID.ClientID }
+func (c *hClient) ClientJWK() jwk.Key                  { return c.key }
+func (c *hClient) ClientSecret() string                { return c.cfg.OpenID.ClientSecret }
+func (c *hClient) PostLogoutRedirectURI() string       { return c.cfg.OpenID.PostLogoutRedirectURI }
+func (c *hClient) ResourceIndicator() string           { return c.cfg.OpenID.ResourceIndicator }
+func (c *hClient) Scopes() scopes.Scopes {
+	return scopes.DefaultScopes().WithAdditional(c.cfg.OpenID.Scopes...)
+}
+func (c *hClient) UILocales() string    { return c.cfg.OpenID.UILocales }
+func (c *hClient) WellKnownURL() string { return c.cfg.OpenID.WellKnownURL }
 
 type hProvider struct {
-	issuer        string
-	par           bool
-	issParam      bool
-	sidRequired   bool
-	sessionState  bool
-	acrSupported  openidconfig.Supported
-	locales       openidconfig.Supported
+	issuer       string
+	par          bool
+	issParam     bool
+	sidRequired  bool
+	sessionState bool
+	acrSupported openidconfig.Supported
+	locales      openidconfig.Supported
 }
 
-func (p *hProvider) ACRValuesSupported() openidconfig.Supported { return p.acrSupported }
-func (p *hProvider) AuthorizationEndpoint() string              { return p.issuer + "/authorize" }
+func (p *hProvider) ACRValuesSupported() openidconfig.Supported       { return p.acrSupported }
+func (p *hProvider) AuthorizationEndpoint() string                    { return p.issuer + "/authorize" }
 func (p *hProvider) AuthorizationResponseIssParameterSupported() bool { return p.issParam }
 func (p *hProvider) EndSessionEndpointURL() url.URL {
 	u, _ := url.Parse(p.issuer + "/endsession")
@@ -81,9 +83,9 @@ func (p *hProvider) PushedAuthorizationRequestEndpoint() string {
 	}
 	return ""
 }
-func (p *hProvider) SessionStateRequired() bool             { return p.sessionState }
-func (p *hProvider) SidClaimRequired() bool                 { return p.sidRequired }
-func (p *hProvider) TokenEndpoint() string                  { return p.issuer + "/token" }
+func (p *hProvider) SessionStateRequired() bool                 { return p.sessionState }
+func (p *hProvider) SidClaimRequired() bool                     { return p.sidRequired }
+func (p *hProvider) TokenEndpoint() string                      { return p.issuer + "/token" }
 func (p *hProvider) UILocalesSupported() openidconfig.Supported { return p.locales }
 
 type hOpenID struct {
@@ -117,8 +119,8 @@ type stackOpts struct {
 }
 
 type upstreamRec struct {
-	mu   sync.Mutex
-	reqs []*http.Request
+	mu    sync.Mutex
+	reqs  []*http.Request
 	byTid map[int]*http.Request
 }
 
@@ -151,39 +153,39 @@ func (h *logHook) Fire(e *log.Entry) error {
 }
 
 type stack struct {
-	opts     stackOpts
-	cfg      *config.Config
-	oidc     *hOpenID
-	idp      *fakeIDP
-	net      *memNet
-	srv      *http.Server
-	ctl      *controller
-	mr       *miniredis.Miniredis
-	rdb      *redis.Client
-	gredis   *gateRedis
-	gmem     *gateMemStore
-	main     *handler.Standalone
-	mainRt   chi.Router
-	proxy    *handler.SSOProxy
-	proxyRt  chi.Router
-	up       *upstreamRec
-	crypter  verifx.Crypter
-	key      []byte
-	start    time.Time
-	logs     *logHook
-	deks     map[string]int // base64(dek) -> ordinal
-	counter  int            // the model's w_next_tok
-	logins   []*loginResult
-	nextTid  int
+	opts    stackOpts
+	cfg     *config.Config
+	oidc    *hOpenID
+	idp     *fakeIDP
+	net     *memNet
+	srv     *http.Server
+	ctl     *controller
+	mr      *miniredis.Miniredis
+	rdb     *redis.Client
+	gredis  *gateRedis
+	gmem    *gateMemStore
+	main    *handler.Standalone
+	mainRt  chi.Router
+	proxy   *handler.SSOProxy
+	proxyRt chi.Router
+	up      *upstreamRec
+	crypter verifx.Crypter
+	key     []byte
+	start   time.Time
+	logs    *logHook
+	deks    map[string]int // base64(dek) -> ordinal
+	counter int            // the model's w_next_tok
+	logins  []*loginResult
+	nextTid int
 }
 
 type loginResult struct {
-	sid      string
-	cookie   string // session cookie value
-	dek      []byte
-	dekID    int
-	tokenID  int
-	idToken  string
+	sid     string
+	cookie  string // session cookie value
+	dek     []byte
+	dekID   int
+	tokenID int
+	idToken string
 }
 
 var errLoginRejected = fmt.Errorf("login rejected by the callback")
@@ -215,13 +217,13 @@ func newStack(o stackOpts) (*stack, error) {
 		o.ingresses = []string{"http://wonderwall"}
 	}
 	cfg := &config.Config{
-		EncryptionKey: deploymentKey,
-		Ingresses:     o.ingresses,
-		AutoLogin:     o.autoLogin,
-		AutoLoginIgnorePaths: o.ignorePaths,
-		UpstreamHost:  "upstream:8080",
+		EncryptionKey:          deploymentKey,
+		Ingresses:              o.ingresses,
+		AutoLogin:              o.autoLogin,
+		AutoLoginIgnorePaths:   o.ignorePaths,
+		UpstreamHost:           "upstream:8080",
 		UpstreamIncludeIdToken: o.includeIDTok,
-		LegacyCookie:  o.legacyCookie,
+		LegacyCookie:           o.legacyCookie,
 		OpenID: config.OpenID{
 			ACRValues:             o.acr,
 			ClientID:              "client-id",
